@@ -26,6 +26,7 @@ Subject: the loop-by-loop model `CMK.get` (`Model/CuthillMcKee.lean`) of `amgcl:
   of course not a permutation of the empty range.
 * `skyline_cmk_spec` — `C16.skyline_spec` instantiated with the MODEL's Cuthill–McKee ordering (what the constructor of
   `skyline_lu` computes by default): no hypothesis on the ordering is left.
+* `skyline_cmk_empty` — the empty system: ordering and `factorize()` return at once, the constructor ends in `ok`.
 * `reorder_cmk_solves` — `C17.reorder_solves` (adapter::reorder, default ordering) with the model's ordering.
 
 Proof idea (`Proofs/CuthillMcKeeInv.lean`, `CuthillMcKee.lean`, `CuthillMcKeeMain.lean`): `perm[0..next)` lists exactly
@@ -168,6 +169,15 @@ theorem skyline_cmk_spec [Field K] [DecidableEq K] (A : CRS K) (perm0 : Array Na
 /-- non-vacuity: CRS `[[3,1],[1,2]]` with an unsorted row; the model's ordering is the identity here -/
 example : CMK.get false C16Ex.exA #[0, 0] = .ok #[0, 1] := by decide +kernel
 example := skyline_cmk_spec C16Ex.exA #[0, 0] (by decide) rfl C16Ex.exA_wf C16Ex.exA_nodup rfl
+
+/-- **the empty system**: the default ordering returns the empty permutation and `factorize()` returns at once (the early
+returns added by the fixes of findings F41 / F42): the constructor of `skyline_lu` ends in `ok` -/
+theorem skyline_cmk_empty [Field K] [DecidableEq K] (A : CRS K) (hn : A.nrows = 0) :
+    CMK.get false A #[] = .ok #[] ∧
+      ∃ S, factorize (fun v => decide (v = 0)) (fun v => 1 / v) (build (R := K) (fun v => decide (v = 0)) A #[]) = .ok S :=
+  ⟨(cmk_empty false A #[] hn).1, _, factorize_empty (by show A.nrows = 0; exact hn)⟩
+
+example := skyline_cmk_empty (K := ℚ) ⟨0, #[]⟩ rfl
 
 /-- **adapter::reorder with its default ordering**: `C17.reorder_solves` with the ordering computed by the model of
 `cuthill_mckee<false>::get`: if `y` solves the reordered system then the back-permuted `y` solves the original one. -/
